@@ -726,6 +726,26 @@ def _display_local(f, name):
     return None
 
 
+def _dict_display_local(f, name):
+    cnt = 0
+    val = None
+    for n in walk_own(f.node):
+        if isinstance(n, ast.Assign):
+            for t in n.targets:
+                for x in ast.walk(t):
+                    if isinstance(x, ast.Name) and x.id == name and isinstance(x.ctx, ast.Store):
+                        cnt += 1
+                        val = n.value if (len(n.targets) == 1 and isinstance(n.targets[0], ast.Name)) else None
+        elif isinstance(n, ast.Call) and isinstance(n.func, ast.Attribute) and isinstance(n.func.value, ast.Name) and n.func.value.id == name \
+                and n.func.attr in ("update", "pop", "setdefault", "clear", "popitem"):
+            return None
+        elif isinstance(n, ast.Subscript) and isinstance(n.ctx, (ast.Store, ast.Del)) and isinstance(n.value, ast.Name) and n.value.id == name:
+            return None
+    if cnt == 1 and isinstance(val, ast.Dict) and val.keys and None not in val.keys and all(isinstance(k, ast.Constant) for k in val.keys):
+        return val
+    return None
+
+
 def _rows(repo, f, it):
     """rows of a constant iterable expression as lists of per-position value expressions, or None.
     zip(CONST, X) gives (c_i, X[i]); enumerate(CONST) gives (i, c_i)."""
@@ -747,6 +767,13 @@ def _rows(repo, f, it):
             t = table(d)
     if t is not None:
         return [[r] for r in t]
+    # D.items() / D.keys() / D.values() over a local bound once to a dict display with constant keys and cheap values
+    if isinstance(it, ast.Call) and isinstance(it.func, ast.Attribute) and it.func.attr in ("items", "keys", "values") and not it.args and isinstance(it.func.value, ast.Name):
+        d = _dict_display_local(f, it.func.value.id)
+        if d is not None and len(d.keys) <= MAX_ROWS and all(_cheap(v) for v in d.values):
+            if it.func.attr == "items":
+                return [[ast.Tuple(elts=[k, v], ctx=ast.Load())] for k, v in zip(d.keys, d.values)]
+            return [[k] for k in d.keys] if it.func.attr == "keys" else [[v] for v in d.values]
     if isinstance(it, ast.Call) and isinstance(it.func, ast.Name) and it.func.id == "range" and not it.keywords and 1 <= len(it.args) <= 2 \
             and all(isinstance(a, ast.Constant) and isinstance(a.value, int) for a in it.args):
         lo, hi = (0, it.args[0].value) if len(it.args) == 1 else (it.args[0].value, it.args[1].value)
